@@ -55,9 +55,10 @@ type Finding struct {
 		Harness      string   `json:"harness"`
 		SiteContains []string `json:"site_contains"`
 	} `json:"match"`
-	What   string `json:"what"`
-	Commit string `json:"commit,omitempty"`
-	Line   string `json:"line,omitempty"`
+	What     string   `json:"what"`
+	GuardsIn []string `json:"guards_in,omitempty"` // other properties whose harnesses assume this finding away
+	Commit   string   `json:"commit,omitempty"`
+	Line     string   `json:"line,omitempty"`
 }
 
 type FindingsFile struct {
@@ -144,6 +145,11 @@ func cmdCheck(args []string) int {
 	for _, f := range ff.Findings {
 		if f.Status == "open" && f.Property == id {
 			knownIDs = append(knownIDs, f.ID)
+		}
+		for _, g := range f.GuardsIn {
+			if f.Status == "open" && g == id {
+				knownIDs = append(knownIDs, f.ID)
+			}
 		}
 	}
 	// expand jobs
